@@ -9,6 +9,7 @@ Three run families (sub-checks), mixed in every batch:
 """
 from . import env  # noqa: F401
 import copy
+import os
 
 import numpy as np
 
@@ -45,6 +46,8 @@ TAU0 = {('weak', True): 2e-2, ('weak', False): 6e-2,
 # worlds): weak 2.0e-2, strong 0.33 (3-D) / 0.80 (2-D).  Only gross disagreement of the
 # estimates is judged there; the sigma rule (clean excess <= 0) is judged in full.
 TAU0_ASYNC = {'weak': 0.15, 'strong': 4.0}
+QUIET_SHARE = 0.3
+TAU0_QUIET = None       # set below after calibration
 SD_RATIO = 0.2          # D_sigma(0.01) <= SD_RATIO * D_sigma(0.1) + SD_FLOOR; the step from
 SD_FLOOR = 1.5e-4       # s=1 is NOT judged for sigma: 5 of 4 000 clean worlds have
                         # D_sigma(0.1) > 0.5*D_sigma(1) (higher-order terms at full scale)
@@ -246,8 +249,22 @@ def _gen_F_once(r, lever_world=False):
     #  filter applies a fix at the last ROW not after it, so on every k-th row its state at a
     #  row already contains fixes up to k IMU periods later - a zeroth-order difference of
     #  bookkeeping, measured D = 1...20 sigma on the unchanged tree.)
+    # quiet worlds (drawn last, so that the other draws of a run seed are unchanged): a
+    # straight leg at constant velocity and attitude, aiding on IMU epochs.  The residual
+    # between "estimate propagated through the real integrator" and "through the discretised
+    # linear model" all but vanishes there, so the first-order rule is judged with a
+    # threshold 10-40x tighter (TAU0_QUIET) - small gain errors in the feedback path show.
+    quiet = bool(r.random() < QUIET_SHARE) and not lever_world and not asynchronous
+    if os.environ.get('VERIF_C12_QUIET') and not lever_world:
+        quiet, asynchronous = True, False
+        for s_, cls in zip(sensors, classes):
+            s_['stamps'] = sorted({float(imu[int(round((t - origin) / period))])
+                                   for t in s_['stamps']})
+    if quiet:
+        wd['rate_terms'] = []
+        wd['force_terms'] = []
     sc = dict(format=1, kind='filter', family='L' if lever_world else 'F',
-              filter='feedback', profile='ladder',
+              filter='feedback', profile='ladder', quiet=quiet,
               template='ladder', regime=regime, asynchronous=asynchronous, world=wd,
               imu=dict(type=['rate', 'increment'][int(r.integers(2))],
                        stamps=[float(x) for x in imu]),
